@@ -669,11 +669,33 @@ func runBlockKeep(c *Ctx, r *Reporter) {
 						}
 					}
 				}
-				settles := func(x *ssa.BasicBlock, from int) bool { // a block that keeps or diagnoses (instructions from index `from`)
+				var settlesIn func(x *ssa.BasicBlock, from int, derived map[ssa.Value]bool, depth int) bool
+				settles := func(x *ssa.BasicBlock, from int) bool { return settlesIn(x, from, derived, 0) }
+				settlesIn = func(x *ssa.BasicBlock, from int, derived map[ssa.Value]bool, depth int) bool { // a block that keeps or diagnoses (instructions from index `from`)
 					for _, i2 := range x.Instrs[from:] {
 						c2, ok := i2.(*ssa.Call)
 						if !ok {
 							continue
+						}
+						// a helper of the package that is handed the statement and keeps or diagnoses it on every path
+						if h := c2.Call.StaticCallee(); h != nil && h.Pkg == sf.Pkg && len(h.Blocks) > 0 && depth < 2 {
+							hd := map[ssa.Value]bool{}
+							for i, a := range c2.Call.Args {
+								if derived[a] && i < len(h.Params) {
+									hd[h.Params[i]] = true
+								}
+							}
+							if len(hd) > 0 {
+								var sb []*ssa.BasicBlock
+								for _, hb := range h.Blocks {
+									if settlesIn(hb, 0, hd, depth+1) {
+										sb = append(sb, hb)
+									}
+								}
+								if len(sb) > 0 && !anyReturnPathAvoiding(h.Blocks[0], sb) {
+									return true
+								}
+							}
 						}
 						if bi, ok := c2.Call.Value.(*ssa.Builtin); ok && bi.Name() == "append" {
 							for _, a := range c2.Call.Args {
